@@ -1482,6 +1482,37 @@ func (s *syncer) oracleFinding(i uint32, rejected bool, symptom string) *outcome
 		fmt.Sprintf("block %d (sync point %d, MaxTraceableBlocks %d): oracle response %s gets past the request lookup on the source (halt: %v); the request was filed by transaction %s at height %d, which the synchronised node does not store (GetTransaction fails); %s (%s)", i, s.p, s.src.mtb, hit.tx.StringLE(), hit.sourceHALT, hit.request.StringLE(), hit.reqHeight, how, symptom)}
 }
 
+// vmstateFinding recognises the second symptom of the same limitation: the
+// node stores the blocks up to the sync point without execution results, so
+// Ledger.getTransactionVMState of a transaction in one of them answers NONE
+// where a fully synchronised node answers HALT / FAULT. It applies only if
+// nothing but the execution results of "ledger-query-vmstate" transactions
+// (which call nothing else) differs, and one of them asked about a block at or
+// below the sync point.
+func (s *syncer) vmstateFinding(i uint32, src, node *vchain.Observation, symptom string) *outcome {
+	p := s.src.h.P
+	kinds := map[string]string{}
+	for j, tx := range p.Blocks[i-1].Transactions {
+		kinds[fmt.Sprintf("tx_aer:%d", j)] = p.TxKinds[tx.Hash()]
+	}
+	hit := false
+	for _, n := range src.AllDiffNames(node) {
+		if n == "header_height" {
+			continue
+		}
+		if kinds[n] != "ledger-query-vmstate" {
+			return nil
+		}
+		hit = true
+	}
+	if !hit || i > s.p+uint32(s.src.mtb) {
+		return nil
+	}
+	s.run.Obs("sync_vmstate_of_transaction_below_sync_point_seen", 1)
+	return &outcome{"sync:ledger-vmstate-unknown-for-transactions-stored-without-execution-results",
+		fmt.Sprintf("block %d (sync point %d, MaxTraceableBlocks %d): only the results of transactions calling Ledger.getTransactionVMState differ (%s)", i, s.p, s.src.mtb, symptom)}
+}
+
 // checkHistoric reads back, through the node's state module, the state of every
 // height the node has to retain: the node removes untraceable blocks, so its
 // trie works in the garbage-collecting mode and keeps the states of the last
@@ -1584,6 +1615,12 @@ func (s *syncer) lockstep() *outcome {
 		if n, d := obsDiff(s.src.h.P.Obs[i], o); n != "" {
 			if o := s.oracleFinding(i, false, d); o != nil {
 				return o
+			}
+			if o := s.vmstateFinding(i, s.src.h.P.Obs[i], o, d); o != nil {
+				// nothing but stack contents differs: the node stays comparable,
+				// the finding is reported and the run goes on
+				s.run.Violation(o.sig, s.sc.ID, o.detail, s.witness())
+				continue
 			}
 			return &outcome{"sync:diverged-after-sync:" + n, fmt.Sprintf("height %d (sync point %d): %s", i, s.p, d)}
 		}
